@@ -552,8 +552,8 @@ def own_jobs(rng, quick):
     for p in pairs:
         lens = [len(SCRIPTS[n]) for n in p]
         allo = list(interleavings(lens))
-        if quick and len(allo) > 40:
-            allo = rng.sample(allo, 40)
+        if quick and len(allo) > 80:
+            allo = rng.sample(allo, 80)
         jobs += [(p, o) for o in allo]
     triples = [("nu", "un", "nc"), ("nu", "nu", "nu"), ("nuy", "nc", "un")]
     for t in triples:
